@@ -85,6 +85,54 @@ Returned as (amplitude, turns mod 1); the amplitude carries the sign of `λf`. -
 def impulseResponse (s : Setup) (w : Rat) (x u : List Rat) : Rat × Rat :=
   (w / lamf s, frac (-(1/4 : Rat) + kernelTurns s x u))
 
+
+/-! ### The two focal-grid constructors of `hcipy/field/util.py` -/
+
+/-- `np.round`: round half to even. -/
+def roundHalfEven (q : Rat) : Int :=
+  let fl := q.floor
+  let r := q - (fl : Rat)
+  if r < 1/2 then fl
+  else if 1/2 < r then fl + 1
+  else if fl % 2 = 0 then fl else fl + 1
+
+/-- Distance of a rational from the nearest integer (0 when it is one): the margin of an
+`astype(int)` truncation against float rounding. -/
+def truncSlack (q : Rat) : Rat :=
+  let r := frac q
+  if r < 1 - r then r else 1 - r
+
+/-- Centred zero of a regular grid: `delta·(-dims/2 + (dims mod 2)/2) = -delta·⌊dims/2⌋`. -/
+def centredZero (Δ : Rat) (M : Nat) : Rat := -(Δ * ((M / 2 : Nat) : Rat))
+
+/-- `make_focal_grid(q, num_airy, spatial_resolution)` with per-axis (already broadcast) arguments:
+`delta = sr/q`, `dims = int(2·num_airy·q)`, centred zero.  Second component: per-axis truncation slack. -/
+def makeFocalGrid (q numAiry sr : List Rat) : RegGrid × List Rat :=
+  let rows := (q.zip (numAiry.zip sr)).map fun (q, a, r) =>
+    let d := 2 * a * q
+    (r / q, d.floor.toNat, truncSlack d)
+  ({ delta := rows.map (·.1), dims := rows.map (·.2.1),
+     zero := rows.map fun (Δ, M, _) => centredZero Δ M },
+   rows.map (·.2.2))
+
+/-- `make_focal_grid_from_pupil_grid(pupil, q, num_airy, f, λ)` (`lf = f·λ` of the call):
+`uv = make_fft_grid(pupil, q, fov)` scaled by `lf/2π`.  Padded size `M = round(q·N)`;
+`fov_i = num_airy/(shape_i/2)` — the code indexes `shape` (numpy order, y first) with the axis
+number of `dims` (x first), which is reproduced here; `dims_i = int(M_i·fov_i)`;
+`Δ_i = lf/(δ_i M_i)`; centred zero. -/
+def focalFromPupil (pupil : RegGrid) (q : Rat) (numAiry : Option Rat) (lf : Rat) : RegGrid × List Rat :=
+  let shape := pupil.dims.reverse
+  let rows := (pupil.delta.zip (pupil.dims.zip shape)).map fun (δ, N, Nsh) =>
+    let M := (roundHalfEven (q * (N : Rat))).toNat
+    let fov : Rat := match numAiry with
+      | none => 1
+      | some a => a / ((Nsh : Rat) / 2)
+    let d := (M : Rat) * fov
+    (lf / (δ * (M : Rat)), d.floor.toNat, truncSlack d)
+  ({ delta := rows.map (·.1), dims := rows.map (·.2.1),
+     zero := rows.map fun (Δ, M, _) => centredZero Δ M },
+   rows.map (·.2.2))
+
 /-! ### Is the focal grid a native FFT grid of the pupil grid, and is it the *full* conjugate? -/
 
 inductive FocalClass where
